@@ -281,7 +281,8 @@ def rule_field_row(ctx, rule="O9.6", mode="values"):
         format_name = ch.choose("format", ["delimited", "fixed"])
         mark = ch.choose("empty mark", ["", "x", "X", " x ", "y", "xx", "0"])
         length_shape = ch.choose("length", ["absent", "exact 3", "exact 0", "exact -1", "range 1-3", "open lower -1", "open upper only -1",
-                                            "open upper only 5", "lower 0", "two items open on both ends"])
+                                            "open upper only 5", "lower 0", "two items open on both ends",
+                                            "two items, the open one ends at -1", "two items open on both ends, one ending at -2"])
         example = ch.choose("example", ["", "good", "bad"])
         duplicate = ch.choose("duplicate name", [False, True])
         construction = ch.choose("construction", ["ok", "InterfaceError"])
@@ -290,6 +291,9 @@ def rule_field_row(ctx, rule="O9.6", mode="values"):
             "range 1-3": ([(1, 3)], 1, 3), "open lower -1": ([(-1, None)], -1, None), "open upper only -1": ([(None, -1)], None, -1),
             "open upper only 5": ([(None, 5)], None, 5), "lower 0": ([(0, None)], 0, None),
             "two items open on both ends": ([(None, 3), (5, None)], None, None),
+            # a negative limit hidden from the overall limits by an open side of the range
+            "two items, the open one ends at -1": ([(None, -1), (3, 3)], None, 3),
+            "two items open on both ends, one ending at -2": ([(None, -2), (5, None)], None, None),
         }
         items, lower, upper = shapes[length_shape]
         seen = {}
@@ -352,7 +356,8 @@ def rule_field_row(ctx, rule="O9.6", mode="values"):
         if format_name == "fixed":
             length_ok = items is not None and lower == upper and lower is not None and lower >= 1
         else:
-            length_ok = not ((lower is not None and lower < 0) or (lower is None and upper is not None and upper < 0))
+            # no part of the length may have a negative limit (not only the overall limits, which an open part hides)
+            length_ok = items is None or all((low is None or low >= 0) and (high is None or high >= 0) for low, high in items)
         accepted = not duplicate and mark_ok and construction == "ok" and length_ok and example != "bad"
         if not accepted:
             return (key, outcome, "raise InterfaceError")
